@@ -576,8 +576,10 @@ where
         // add the new element in the qp vector as the last in the heap
         self.store.qp.push(Position(i));
         self.store.heap.push(Index(i));
-        self.bubble_up(Position(i), Index(i));
+        // count the element before sifting: `bubble_up` calls user code (`Ord::cmp`)
+        // that may panic, and the tables must agree with `size` if it does
         self.store.size += 1;
+        self.bubble_up(Position(i), Index(i));
         None
     }
 
@@ -915,6 +917,10 @@ where
                     unsafe {
                         *self.store.heap.get_unchecked_mut(position.0) = parent_index;
                         *self.store.qp.get_unchecked_mut(parent_index.0) = position;
+                        // keep heap and qp inverse permutations at every step, so that a
+                        // panicking `Ord::cmp` cannot leave them inconsistent
+                        *self.store.heap.get_unchecked_mut(parent.0) = map_position;
+                        *self.store.qp.get_unchecked_mut(map_position.0) = parent;
                     }
                     self.bubble_up_max(parent, map_position)
                 }
@@ -927,6 +933,10 @@ where
                     unsafe {
                         *self.store.heap.get_unchecked_mut(position.0) = parent_index;
                         *self.store.qp.get_unchecked_mut(parent_index.0) = position;
+                        // keep heap and qp inverse permutations at every step, so that a
+                        // panicking `Ord::cmp` cannot leave them inconsistent
+                        *self.store.heap.get_unchecked_mut(parent.0) = map_position;
+                        *self.store.qp.get_unchecked_mut(map_position.0) = parent;
                     }
                     self.bubble_up_min(parent, map_position)
                 }
@@ -955,6 +965,9 @@ where
                 let grand_parent_index = *self.store.heap.get_unchecked(grand_parent.0);
                 *self.store.heap.get_unchecked_mut(position.0) = grand_parent_index;
                 *self.store.qp.get_unchecked_mut(grand_parent_index.0) = position;
+                // see `bubble_up`: no hole is left open across a comparison
+                *self.store.heap.get_unchecked_mut(grand_parent.0) = map_position;
+                *self.store.qp.get_unchecked_mut(map_position.0) = grand_parent;
             }
             position = grand_parent;
         }
@@ -974,6 +987,9 @@ where
                 let grand_parent_index = *self.store.heap.get_unchecked(grand_parent.0);
                 *self.store.heap.get_unchecked_mut(position.0) = grand_parent_index;
                 *self.store.qp.get_unchecked_mut(grand_parent_index.0) = position;
+                // see `bubble_up`: no hole is left open across a comparison
+                *self.store.heap.get_unchecked_mut(grand_parent.0) = map_position;
+                *self.store.qp.get_unchecked_mut(map_position.0) = grand_parent;
             }
             position = grand_parent;
         }
